@@ -1753,7 +1753,7 @@ def emit_types(gen):
     def vecs():
         res = []
         for nm, elem in ctx.vec_structs.items():
-            res.append(f"struct {nm} {{ {elem}{'' if elem.endswith('*') else ' '}*d; size_t n; }};")
+            res.append(f"struct {nm} {{ {elem}{'' if elem.endswith('*') else ' '}*d; size_t n; unsigned char bad; /* ghost: 0 = every element was pushed under the model's element condition */ }};")
         return res
     # topological order by by-value use
     names = {cname(q): q for q in texts if texts[q] is not None and q not in anon_members}
@@ -1835,12 +1835,23 @@ def run(ast_dir, spec_paths, excluded_path, out_c, out_map, out_report, layouts_
     for q in ctx.records: L.append(f"#define HAVE_{cname(q)} 1")
     L.append(MODELS_INCLUDE)
     L.append(MODELS_INCLUDE.replace('models.h', 'vocab.h'))
-    for nm, elem in ctx.vec_structs.items(): L.append(f"DEFINE_VEC_MODEL({nm}, {elem})")
+    for nm, elem in ctx.vec_structs.items():
+        L.append(f"#ifndef VEC_PUSH_REQ_{nm}\n#define VEC_PUSH_REQ_{nm}(x) 1\n#endif")
+        L.append(f"#ifndef VEC_ELEM_OK_{nm}\n#define VEC_ELEM_OK_{nm}(x) 1\n#endif")
+        L.append(f"DEFINE_VEC_MODEL({nm}, {elem})")
     L.append('/* ---- prototypes ---- */')
     for cn, p in protos.items():
         if p: L.append(p + ';')
     for nm, p in gen.helper_protos.items(): L.append(p + ';')
     L.append('#include "ghost.h"')
+    # excluded (untranslated) functions may carry an ASSUMED contract: declaration + contract clauses, no body
+    for f in ctx.funcs.values():
+        if f.cname in excluded and f.cname in fnspecs and protos.get(f.cname):
+            sp = fnspecs[f.cname]
+            if sp.ghost or sp.loops: raise SystemExit(f"cxx2c: spec {f.cname}: an excluded function takes a contract only")
+            L.append(f"/* {f.q} : excluded from translation ({excluded[f.cname]}); ASSUMED contract */")
+            L.append(protos[f.cname]); L += gen.tag_lines(sp, sp.contract); L.append(';')
+            gen.used_specs.add(f.cname)
     L.append('/* ---- generated helpers (value/heap construction wrappers, std algorithm instances) ---- */')
     for nm, p in gen.helper_protos.items():
         L.append(p)
